@@ -49,6 +49,9 @@ def run(chk: Check):
     from black_it.search_space import SearchSpace
 
     rng = chk.rng
+    # several Halton sampler objects alive at once, built before ANYTHING in this process has asked for a prime, then used in turns (below) on spaces of
+    # growing dimension, between uses of other sampler objects
+    h_pool = [hm.HaltonSampler(batch_size=1, random_state=0) for _ in range(3)]
     chk.rule = ("halton(): dims 1-40 (first d primes), start indices stratified over [0,2^16+2^12) (uniform, around powers of each base, "
                 "edges), batch sizes 1-12; samplers: seeds through a recording generator, 1-6 successive batch sizes on one object, "
                 "pre-snap points captured by wrapping digitize_data; R-sequence likewise. non-trivial = dims >= 2 and >= 2 points")
@@ -108,17 +111,21 @@ def run(chk: Check):
     # run the implementation first for the sampler cases (their requests depend on the recorded seed draws)
     impl_out = {}
     h_reuse = []
-    h_pool = []
+    pool_uses = [0]
+    hs_count = [0]
     r_reuse = []
     for i, m in enumerate(meta):
         if m[0] == "hsampler":
             _, seed, d, sizes, forced = m
-            if not h_pool:
-                # several sampler objects alive at once, built before any of them is used, then used in turns on spaces of changing dimension
-                h_pool.extend(hm.HaltonSampler(batch_size=1, random_state=0) for _ in range(3))
+            if hs_count[0] < 16:
+                # the first sampler uses of a run go strictly up in dimension, from one object to the next: each needs primes that no object alive has needed so far
+                d = [2, 3, 4, 5, 6, 7, 8, 9, 10, 12, 14, 16, 18, 20, 22, 24][hs_count[0]]
+                meta[i] = m = (m[0], seed, d, sizes, forced)
+            hs_count[0] += 1
             if i % 4 == 1:
                 smp = h_pool[(i // 4) % len(h_pool)]
                 chk.count("halton_object:one_of_several_alive_used_in_turns")
+                pool_uses[0] += 1
             elif h_reuse and i % 2 == 0:
                 smp = h_reuse[0]          # one long-lived sampler object serving spaces of changing dimension (prime tables, cursors must follow)
                 chk.count("halton_object:reused")
